@@ -564,3 +564,196 @@ Proof.
     apply andb_true_iff in Hfl as [H5 _]. apply Z.leb_le in H5. destruct Hc as [_ Hc].
     exact (Z.lt_irrefl _ (Z.lt_le_trans _ _ _ Hc H5)).
 Qed.
+
+(* =====================================================================================
+   Requests that are NOT streamed (identity `process`: bucket listing, put_chunk, is_complete, mark_complete): the body
+   of the answer is downloaded inside session.request.  When no answer loses part of its body - in particular when
+   the answers carry no body at all, as for a PUT or the empty `complete` marker - the loop is the counting spec.
+   ===================================================================================== *)
+Definition no_body_fault (len : nat) (o : outcome) : bool := negb (is200 o && read_fault len o).
+
+Lemma loop_spec_nb : forall fl len b, wf_retry b = true -> streamed PListing = false ->
+  forall fs seen r0, Forall (fun o => wf_outcome o = true) fs -> forallb (no_body_fault len) fs = true ->
+  fits fl len b seen = true ->
+  request_loop fl PListing len [] r0 (after fl len b seen) fs = gen_spec fl len b seen fs.
+Proof.
+  intros fl len b Hb Hs. induction fs as [|o rest IH]; intros seen r0 Hwf Hnb Hf.
+  - cbn [request_loop]. unfold katdal_step. rewrite Hs.
+    rewrite (body_complete PListing len Good Logic.I eq_refl eq_refl).
+    unfold gen_spec. cbn [take_while drop_while]. rewrite app_nil_r, Hf. reflexivity.
+  - inversion Hwf as [|? ? Ho Hrest]; subst.
+    cbn [forallb] in Hnb. apply andb_true_iff in Hnb as [Hno Hnb].
+    assert (RETRY : forall r0', read_fault len o = true ->
+              (match increment (after fl len b seen) CRead with
+               | Some r' => let '(res, n) := request_loop fl PListing len [] (r0' r') r' rest in (res, S n)
+               | None => (Err Glitch, 1%nat)
+               end) = gen_spec fl len b seen (o :: rest)).
+    { intros r0' Hr. rewrite (increment_read_after fl len b seen o Hb Hf Hr).
+      assert (Ht : transient fl len o = true) by (unfold transient; rewrite Hr; reflexivity).
+      destruct (fits fl len b (seen ++ [o])) eqn:E.
+      - rewrite (IH _ _ Hrest Hnb E). symmetry. apply gen_spec_step; assumption.
+      - symmetry. apply gen_spec_stop; assumption. }
+    destruct (is200 o) eqn:H200.
+    + (* a 200 response whose body arrives complete *)
+      assert (Hr : read_fault len o = false).
+      { unfold no_body_fault in Hno. rewrite H200 in Hno. cbn in Hno. apply negb_true_iff in Hno. exact Hno. }
+      assert (Ha : adapter_step fl (after fl len b seen) o = AResp) by (destruct o; try discriminate H200; reflexivity).
+      cbn [request_loop]. rewrite Ha. unfold katdal_step. rewrite Hs.
+      rewrite (body_complete PListing len o Logic.I H200 Hr).
+      assert (Hst : match o with Status c => raise_for_status c [] | _ => None end = None)
+        by (destruct o; try discriminate H200; reflexivity).
+      rewrite Hst.
+      rewrite gen_spec_done; [destruct o; try discriminate H200; reflexivity | | exact Hf].
+      unfold transient. rewrite Hr. destruct o; try discriminate H200; reflexivity.
+    + destruct o as [c|k|k|k|h|]; try discriminate H200.
+      * (* a status *)
+        cbn [request_loop adapter_step]. destruct (memZ c fl) eqn:Hm.
+        -- assert (Hsf : status_fault fl (Status c) = true) by exact Hm.
+           rewrite (increment_status_after fl len b seen (Status c) Hb Hf Hsf).
+           assert (Ht : transient fl len (Status c) = true) by (unfold transient; rewrite Hsf; apply orb_true_r).
+           destruct (fits fl len b (seen ++ [Status c])) eqn:E.
+           ++ rewrite (IH _ _ Hrest Hnb E). symmetry. apply gen_spec_step; assumption.
+           ++ destruct (handle_adapter_exhausted r0 true) as [_ HR]. rewrite HR.
+              symmetry. apply gen_spec_stop; assumption.
+        -- unfold katdal_step. rewrite Hs. cbn in Ho. cbn [body_result].
+           rewrite raise_for_status_spec by lia.
+           rewrite gen_spec_done; [reflexivity | | exact Hf].
+           unfold transient. cbn. exact Hm.
+      * (* no response header *)
+        cbn [request_loop adapter_step].
+        rewrite <- (RETRY (fun _ => r0) eq_refl).
+        destruct (increment (after fl len b seen) CRead); [reflexivity|].
+        destruct (handle_adapter_exhausted r0 (match h with HStall => true | _ => false end)) as [HR _].
+        rewrite HR. reflexivity.
+Qed.
+
+Lemma request_nb_is_spec : forall cfg len fs,
+  wf_retry (c_retry cfg) = true -> Forall (fun o => wf_outcome o = true) fs ->
+  forallb (no_body_fault len) fs = true ->
+  request cfg PListing len [] fs = spec_request cfg len fs.
+Proof.
+  intros cfg len fs Hb Hwf Hnb. unfold request.
+  rewrite <- gen_spec_nil_seen.
+  rewrite <- (after_nil (c_forcelist cfg) len (c_retry cfg)) at 2.
+  apply loop_spec_nb; try assumption; [reflexivity|].
+  unfold fits, count, within. cbn. unfold wf_retry, nonneg in Hb.
+  destruct (c_retry cfg) as [[t|] [c|] [r|] [s|]]; cbn in *; lia.
+Qed.
+
+(* answers without a body cannot lose part of it *)
+Lemma no_body_no_fault : forall fs, forallb (no_body_fault O) fs = true.
+Proof.
+  induction fs as [|o rest IH]; [reflexivity|]. cbn [forallb]. rewrite IH, andb_true_r.
+  unfold no_body_fault. destruct o; reflexivity.
+Qed.
+
+(* put_chunk: the answer to a PUT has no body *)
+Lemma put_chunk_is_spec : forall cfg fs,
+  wf_retry (c_retry cfg) = true -> Forall (fun o => wf_outcome o = true) fs ->
+  put_chunk cfg O fs = spec_request cfg O fs.
+Proof. intros. unfold put_chunk. apply request_nb_is_spec; try assumption. apply no_body_no_fault. Qed.
+
+Lemma put_chunk_guarded : forall cfg len fs,
+  wf_retry (c_retry cfg) = true -> Forall (fun o => wf_outcome o = true) fs ->
+  forallb (no_body_fault len) fs = true ->
+  put_chunk cfg len fs = spec_request cfg len fs.
+Proof. intros. unfold put_chunk. apply request_nb_is_spec; assumption. Qed.
+
+Lemma is_complete_table :
+  caught_by_is_complete NotFound = true /\ caught_by_is_complete Glitch = true /\
+  caught_by_is_complete Auth = false /\ caught_by_is_complete Unavail = false /\
+  caught_by_is_complete InvalidTok = false /\ caught_by_is_complete Raw = false.
+Proof. repeat split; reflexivity. Qed.
+
+Lemma is_complete_guarded : forall cfg len fs,
+  wf_retry (c_retry cfg) = true -> Forall (fun o => wf_outcome o = true) fs ->
+  forallb (no_body_fault len) fs = true ->
+  is_complete cfg len fs = (spec_is_complete cfg len fs, spec_requests (c_forcelist cfg) len (c_retry cfg) fs).
+Proof.
+  intros cfg len fs Hb Hwf Hnb. unfold is_complete, spec_is_complete.
+  rewrite (request_nb_is_spec cfg len fs Hb Hwf Hnb). unfold spec_request.
+  destruct (spec_result_cases (c_forcelist cfg) len (c_retry cfg) fs) as [E|[E|[c E]]]; rewrite E; try reflexivity.
+  destruct (spec_status_cases c) as [H|[H|H]]; rewrite H; reflexivity.
+Qed.
+
+Lemma is_complete_is_spec : forall cfg fs,
+  wf_retry (c_retry cfg) = true -> Forall (fun o => wf_outcome o = true) fs ->
+  is_complete cfg O fs = (spec_is_complete cfg O fs, spec_requests (c_forcelist cfg) O (c_retry cfg) fs).
+Proof. intros. apply is_complete_guarded; try assumption. apply no_body_no_fault. Qed.
+
+(* mark_complete: the marker is written only after the bucket request succeeded (or was answered 409: the bucket
+   exists already); its own request then is the counting spec with the full budget *)
+Lemma mark_complete_bucket_failed : forall cfg fs e,
+  fst (request cfg PListing O s3_create_bucket_ignored fs) = Err e ->
+  mark_complete cfg fs = (Err e, snd (request cfg PListing O s3_create_bucket_ignored fs), O).
+Proof.
+  intros cfg fs e H. unfold mark_complete, mark_complete_with.
+  destruct (request cfg PListing O s3_create_bucket_ignored fs) as [rb nb]. cbn in H. subst. reflexivity.
+Qed.
+
+Lemma mark_complete_bucket_ok : forall cfg fs d,
+  wf_retry (c_retry cfg) = true -> Forall (fun o => wf_outcome o = true) fs ->
+  fst (request cfg PListing O s3_create_bucket_ignored fs) = Ok d ->
+  let nb := snd (request cfg PListing O s3_create_bucket_ignored fs) in
+  mark_complete cfg fs =
+  (spec_result (c_forcelist cfg) O (c_retry cfg) (skipn nb fs), nb,
+   spec_requests (c_forcelist cfg) O (c_retry cfg) (skipn nb fs)).
+Proof.
+  intros cfg fs d Hb Hwf H. unfold mark_complete, mark_complete_with.
+  destruct (request cfg PListing O s3_create_bucket_ignored fs) as [rb nb]. cbn in H. subst. cbn [snd].
+  fold (put_chunk cfg O (skipn nb fs)).
+  assert (Hwf' : Forall (fun o => wf_outcome o = true) (skipn nb fs)).
+  { rewrite Forall_forall in *. intros x Hx. apply Hwf. rewrite <- (firstn_skipn nb fs). apply in_or_app. right. exact Hx. }
+  rewrite (put_chunk_is_spec cfg (skipn nb fs) Hb Hwf'). reflexivity.
+Qed.
+
+(* 409 on the bucket request counts as success, any other permanent status does not *)
+Lemma create_bucket_409 : forall cfg rest, memZ 409 (c_forcelist cfg) = false ->
+  request cfg PListing O s3_create_bucket_ignored (Status 409 :: rest) = (Ok O, 1%nat).
+Proof.
+  intros cfg rest Hm. unfold request. cbn [request_loop adapter_step]. rewrite Hm.
+  unfold katdal_step. change (streamed PListing) with false. cbv iota. reflexivity.
+Qed.
+
+(* ---------- the `retries` argument ---------- *)
+Lemma store_config_int : forall n, 0 <= n ->
+  let cfg := store_config (RInt n) in
+  r_read (c_retry cfg) = Some n /\ r_connect (c_retry cfg) = Some n /\ r_status (c_retry cfg) = Some 5 /\
+  r_total (c_retry cfg) = Some 10 /\ c_forcelist cfg = [500; 502; 503; 504] /\ wf_retry (c_retry cfg) = true.
+Proof.
+  intros n Hn. cbn [store_config]. destruct (default_config_ok n n Hn Hn) as [H1 [H2 [_ [H4 H5]]]].
+  repeat split; try assumption; reflexivity.
+Qed.
+
+Lemma default_store_is : default_store = default_config 2 2.
+Proof. reflexivity. Qed.
+
+(* what a user of S3ChunkStore(url) can rely on: a chunk survives any run of transient faults with at most 2 read
+   faults, at most 5 status faults (and at most 10 faults in all) *)
+Lemma default_store_budget : forall segs pre,
+  forallb (transient [500; 502; 503; 504] (total segs)) pre = true ->
+  count (read_fault (total segs)) pre <= 2 -> count (status_fault [500; 502; 503; 504]) pre <= 5 ->
+  request default_store (PChunk segs) (total segs) [] pre = (Ok (total segs), S (List.length pre)).
+Proof.
+  intros segs pre Ht Hr Hst. rewrite default_store_is.
+  destruct (default_config_ok 2 2 ltac:(lia) ltac:(lia)) as [H1 [H2 [H3 _]]].
+  rewrite (faults_then_good (default_config 2 2) (PChunk segs) (total segs) pre H1 H3 eq_refl eq_refl);
+    [|rewrite H2; exact Ht].
+  rewrite H2.
+  assert (F : fits [500; 502; 503; 504] (total segs) (c_retry (default_config 2 2)) pre = true).
+  { unfold fits, within. unfold default_config. change s3_default_status with 5. cbn [c_retry r_read r_status r_total].
+    assert (Z.of_nat (List.length pre) <= 7).
+    { assert (E : forall l, forallb (transient [500; 502; 503; 504] (total segs)) l = true ->
+                  Z.of_nat (List.length l) <= count (read_fault (total segs)) l + count (status_fault [500; 502; 503; 504]) l).
+      { unfold count. induction l as [|o l IH]; intro Hl; [cbn; lia|].
+        cbn [forallb] in Hl. apply andb_true_iff in Hl as [Ho Hl]. specialize (IH Hl).
+        unfold transient in Ho. cbn [filter List.length].
+        destruct (read_fault (total segs) o); destruct (status_fault [500; 502; 503; 504] o);
+          try discriminate Ho; cbn [List.length]; lia. }
+      specialize (E pre Ht). lia. }
+    apply andb_true_iff; split; [apply andb_true_iff; split|]; apply Z.leb_le; lia. }
+  rewrite F. reflexivity.
+Qed.
+
+Lemma mark_complete_is_spec : forall cfg fs, mark_complete cfg fs = spec_mark_complete cfg fs.
+Proof. reflexivity. Qed.
